@@ -140,3 +140,35 @@ PROPS["C07"] = {
         },
     ],
 }
+
+_K2 = '{"ok", "http", "refuse", "reset_pre", "close_pre", "garbage", "hdr_then_reset", "reset_after", "close_after"}'
+_DISPATCH_PART = {
+    "name": "dispatch",
+    "mc": [{"module": "Dispatch", "cfg": "Dispatch_mc.cfg"}],
+    "quick": {"gen": [
+        {"module": "DispatchGen", "cfg": "Dispatch_gen.cfg",
+         "params": {"NEPs": "{2}", "GKinds": _K2, "Balancers": '{"priority", "round-robin"}',
+                    "Framings": '{"cl", "chunked"}', "Routes": '{"proxy"}', "NSteps": 1, "WithHealth": "FALSE", "Pattern": 0, "BurstN": 1}},
+        {"module": "DispatchGen", "cfg": "Dispatch_gen.cfg",
+         "params": {"NEPs": "{2}", "GKinds": '{"ok", "reset_after", "reset_pre"}', "Balancers": '{"round-robin"}',
+                    "Framings": '{"chunked"}', "Routes": '{"proxy"}', "NSteps": 0, "WithHealth": "FALSE", "Pattern": 1, "BurstN": 6}},
+    ]},
+    "thorough": {"gen": [
+        {"module": "DispatchGen", "cfg": "Dispatch_gen.cfg",
+         "params": {"NEPs": "{2, 3}", "GKinds": _K2,
+                    "Balancers": '{"priority", "round-robin", "least-connections"}',
+                    "Framings": '{"cl", "chunked"}', "Routes": '{"proxy", "provider"}', "NSteps": 1, "WithHealth": "FALSE", "Pattern": 0, "BurstN": 1}},
+    ]},
+    "pkg": "internal/app", "test": "TestVerif_Dispatch",
+    "trace": {"module": "DispatchTrace", "cfg": "Dispatch_trace.cfg", "deque": True},
+    "nontrivial": lambda s: any(k != "ok" for st in s["steps"] if st["op"] == "req" for k in st["plans"].values()),
+}
+PROPS["C02"] = {
+    "rule": "TLC enumerates fault assignments (every endpoint x fault kind incl. refused, reset before/after "
+            "bytes, truncated, garbage) x engine x balancer x framing; each runs through the fully assembled "
+            "server with socket-level scripted backends and a raw client; the trace is validated against Dispatch. "
+            "Non-trivial = at least one endpoint misbehaves.",
+    "exhaustive": True,
+    "assumptions": ["backends stamp every body token with (endpoint, attempt); attribution of delivered bytes is by token"],
+    "parts": [_DISPATCH_PART],
+}
